@@ -164,6 +164,8 @@ M = [
   [(W, "        self.increment_weak();\n        Self { ptr: self.ptr }", "        let weak = Self { ptr: self.ptr };\n        weak.increment_weak();\n        weak")]),
  ("M70", "mutant", "push_bag seals with the epoch cached at the last pin (the change three round-4 agents made)", ["C13"],
   [(I, "        let epoch = self.epoch.load(Ordering::Relaxed);\n        self.queue.push(bag.seal(epoch), guard);", "        let epoch = match unsafe { guard.local.as_ref() } {\n            Some(local) => local.prev_epoch.get().unpinned(),\n            None => self.epoch.load(Ordering::Relaxed),\n        };\n        self.queue.push(bag.seal(epoch), guard);")]),
+ ("M71", "mutant", "a collection may start within a collection when the inner critical section belongs to another (temporary) participant (revert of D16)", ["C20"],
+  [(I, "            && !THREAD_COLLECTING.with(|c| c.replace(true))\n", "            && !THREAD_COLLECTING.with(|c| c.replace(false))\n")]),
  ("M55", "mutant", "pop returns the value although the head CAS failed", ["C17"],
   [(Q, "    fn pop_internal(&self, guard: &Guard) -> Result<Option<T>, ()> {\n        let head = self.head.load(Acquire, guard);\n        let h = unsafe { head.deref() };\n        let next = h.next.load(Acquire, guard);\n        match unsafe { next.as_ref() } {\n            Some(n) => unsafe {\n                self.head\n                    .compare_exchange(head, next, Release, Relaxed, guard)\n                    .map(|_| {", "    fn pop_internal(&self, guard: &Guard) -> Result<Option<T>, ()> {\n        let head = self.head.load(Acquire, guard);\n        let h = unsafe { head.deref() };\n        let next = h.next.load(Acquire, guard);\n        match unsafe { next.as_ref() } {\n            Some(n) => unsafe {\n                self.head\n                    .compare_exchange(head, next, Release, Relaxed, guard)\n                    .or_else(|e| if e.ptr_eq(next) { Ok(e) } else { Err(e) })\n                    .map(|_| {")]),
 ]
